@@ -409,22 +409,10 @@ open Kvass Kvass.Spec
 
 /-! ### a decidable check of the hypotheses (scale-down switched off) -/
 
-def quietB (swr : Swr) (inp : Input) : Bool :=
-  let ss := infos0 inp
-  let o := inp.opt
-  (inp.probes.all fun p => p.ready && p.postOk && p.status.isSome &&
-      (match p.rt1 with | some (_, true) => true | _ => false) && decide ((reported p).keys.Nodup)) &&
-  (ss.all fun s => s.scraping.all fun q => inp.active.contains q.1 && q.2.state == .normal) &&
-  (ss.zipIdx.all fun (si, i) => ss.zipIdx.all fun (sj, j) =>
-      i == j || si.scraping.keys.all fun h => !(sj.scraping.has h)) &&
-  (o.disableAlleviate || ss.all fun s => !Gen.procTrigger swr o s.rt && (headThreshold swr o s.rt).isNone) &&
-  (inp.active.all fun h => (scrapingSetOf ss).contains h ||
-      Gen.assignSkip (globalOf ss inp.explore h) || Gen.tooBig o (globalOf ss inp.explore h)) &&
-  decide (o.minShard ≤ (inp.probes.length : Int)) && decide ((inp.probes.length : Int) ≤ o.maxShard) &&
-  !o.idleOn
-
 theorem quietB_sound (swr : Swr) (inp : Input) (h : quietB swr inp = true) : Quiet swr inp := by
   unfold quietB at h
+  change _ at h
+  rw [show (inp.probes.map getInfo).map (·.1) = infos0 inp from rfl] at h
   simp only [Bool.and_eq_true, List.all_eq_true, decide_eq_true_eq, Bool.not_eq_true', Bool.or_eq_true] at h
   obtain ⟨⟨⟨⟨⟨⟨⟨hsync, hclean⟩, hsingle⟩, hcalm⟩, hplaced⟩, hmin⟩, hmax⟩, hidle⟩ := h
   refine ⟨?_, ?_, ?_, ?_, ?_, ?_, hmin, hmax, Or.inl hidle⟩
